@@ -241,6 +241,66 @@ fn run_object_case(seed: u64, idx: u64, dec_thr: u32) -> (bool, String) {
     (out.is_some(), sha256(&buf))
 }
 
+/// Default-derivation path: the configuration a build derives on its own (with_defaults /
+/// EncoderBuilder) is an output too. `idx` selects (F, P'); large objects are included because
+/// the default memory budget only matters beyond ~1 MB.
+fn run_defaults_oti(seed: u64, idx: u64) -> String {
+    let mut r = SplitMix(seed ^ idx.wrapping_mul(0xD1B5_4A32_D192_ED03) ^ 0xDEF);
+    let bits = 1 + r.below(40);
+    let f = ((1u64 << (bits - 1)) | (r.next() & ((1u64 << (bits - 1)) - 1))).min(942574504275);
+    let p = match r.below(4) {
+        0 => 1 + r.below(70) as u16,
+        1 => [63u16, 64, 65, 1024, 1280, 1400, 8192, 65535][r.below(8) as usize],
+        _ => 8 + r.below(65528) as u16,
+    };
+    let mut buf = vec![];
+    buf.extend_from_slice(&f.to_be_bytes());
+    buf.extend_from_slice(&p.to_be_bytes());
+    buf.extend_from_slice(&ObjectTransmissionInformation::with_defaults(f, p).serialize());
+    sha256(&buf)
+}
+
+fn run_defaults_object(idx: u64) -> String {
+    use raptorq::{Decoder, Encoder, EncoderBuilder};
+    let (len, mtu): (usize, u16) = [(100_000, 1024), (1_200_000, 8192), (3_000_000, 8192), (1_050_000, 2048), (700_000, 65535), (5_000, 64)][(idx % 6) as usize];
+    let data: Vec<u8> = (0..len).map(|i| ((i as u64).wrapping_mul(0x9E37_79B9) >> 7) as u8).collect();
+    let enc = Encoder::with_defaults(&data, mtu);
+    let cfg = enc.get_config();
+    let mut b = EncoderBuilder::new();
+    b.set_max_packet_size(mtu);
+    let cfg2 = b.build(&data[..len.min(20_000)]).get_config();
+    let mut buf = vec![];
+    buf.extend_from_slice(&cfg.serialize());
+    buf.extend_from_slice(&cfg2.serialize());
+    let mut dec = Decoder::new(cfg);
+    let mut out = None;
+    for (i, blk) in enc.get_block_encoders().iter().enumerate() {
+        let src = blk.source_packets();
+        for (j, p) in src.into_iter().enumerate() {
+            if j < 3 {
+                buf.extend_from_slice(&p.serialize());
+            }
+            if j != i % 2 {
+                out = dec.decode(p);
+            }
+        }
+        for p in blk.repair_packets(0, 3) {
+            buf.extend_from_slice(&p.serialize());
+            if let Some(o) = dec.decode(p) {
+                out = Some(o);
+            }
+        }
+    }
+    match out {
+        Some(o) => {
+            buf.push(1);
+            buf.extend_from_slice(&sha256(&o).into_bytes());
+        }
+        None => buf.push(0),
+    }
+    sha256(&buf)
+}
+
 fn main() {
     let a: Vec<String> = std::env::args().collect();
     let seed: u64 = a[1].parse().unwrap();
@@ -313,6 +373,16 @@ fn main() {
         }
     }
     vk::force_kernel(None);
+    // default-derivation cases (case numbers 1_000_000.. so that they never collide)
+    let n_oti = 4000u64.min(cases * 10);
+    for i in 0..n_oti {
+        let d = std::panic::catch_unwind(|| run_defaults_oti(seed, i)).unwrap_or_else(|_| "PANIC".to_string());
+        lines.push(format!("{} kernel=default,thr=250,plan=defaults-oti 0 {d}", 1_000_000 + i));
+    }
+    for i in 0..6u64 {
+        let d = std::panic::catch_unwind(|| run_defaults_object(i)).unwrap_or_else(|_| "PANIC".to_string());
+        lines.push(format!("{} kernel=default,thr=250,plan=defaults-object 1 {d}", 2_000_000 + i));
+    }
     println!("# build: std={} debug_assertions={}", cfg!(feature = "std"), cfg!(debug_assertions));
     for l in lines {
         println!("{l}");
